@@ -368,7 +368,9 @@ def run_case(case):
         pre = dict(params)
         install(Oracle(seed=case['seed'] + 1))
         try:
-            dyn.set(pre).run(fatal=True)
+            pre_rc = dyn.set(pre).run(fatal=True)
+            import copy as _copy
+            state['pre_results'] = (pre_rc.get(epyc.Experiment.RESULTS), _copy.deepcopy(pre_rc.get(epyc.Experiment.RESULTS)))
         except Exception:
             pass
         del entries[:]
@@ -413,7 +415,9 @@ def run_case(case):
     if case.get('seq') and isinstance(res, dict) and Monitor.OBSERVATIONS in res:
         monitor = {'times': list(res[Monitor.OBSERVATIONS]),
                    'series': [list(res.get(Monitor.timeSeriesForLocus(sp_[0]), [])) for sp_ in lspecs]}
-    obs = {'exception': exc, 'gate_positions': gate_positions, 'entries': entries, 'loci_specs': lspecs, 'monitor': monitor, 'started_rand': state.get('started_rand'), 'snaps': snaps, 'final': final, 'registration': registration,
+    pr = state.get('pre_results')
+    obs = {'earlier_results_intact': None if pr is None else (repr(pr[0]) == repr(pr[1])),
+           'exception': exc, 'gate_positions': gate_positions, 'entries': entries, 'loci_specs': lspecs, 'monitor': monitor, 'started_rand': state.get('started_rand'), 'snaps': snaps, 'final': final, 'registration': registration,
            'results': {k: v for k, v in res.items() if isinstance(v, (int, float))} if isinstance(res, dict) else {},
            'time': md.get(Dynamics.TIME), 'events': md.get(Dynamics.EVENTS), 'steps': md.get(SynchronousDynamics.TIMESTEPS_WITH_EVENTS, 0),
            'rands': [e[1] for e in orc.values('random')], 'lns': list(rec.logs), 'draws': [d[1] for d in rec.draws],
